@@ -416,7 +416,7 @@ pub fn record_case(line: &str, fuel: usize) -> String {
     let keep = rec["steps"].as_bool().unwrap_or(false);
     match util::guarded(|| observe(text, fuel, keep)) {
         Ok(o) => {
-            let mut ev = event(&Value::Null, &o, rec["origin"].as_str().unwrap_or(""));
+            let mut ev = event(rec.get("gen").unwrap_or(&Value::Null), &o, rec["origin"].as_str().unwrap_or(""));
             ev["text"] = json!(crate::tj::ascii(text));
             json!({"mism": [], "event": ev, "accepted": o.accepted, "endk": o.end_kind, "cls": "ok"}).to_string()
         }
